@@ -170,6 +170,8 @@ def gen_cases(tier, seed):
             cases.append(dict(mode='convert', shape=A.shape_desc([kv], [p], False, 3, 'coded')))
             for wk in ('coded', 'spike'):
                 cases.append(dict(mode='scale_weights', shape=A.shape_desc([kv], [p], True, 3, 'coded', wk)))
+            for wk in ('coded', 'spike', 'le1', 'seeded'):
+                cases.append(dict(mode='convert_rational', shape=A.shape_desc([kv], [p], True, 3, 'coded', wk)))
     d2 = [1, 2] if q else [1, 2, 3]
     for pu, pv in itertools.product(d2, d2):
         for ku in A.rep_kvs(pu, 1)[:3]:
@@ -178,12 +180,15 @@ def gen_cases(tier, seed):
                     continue
                 cases.append(dict(mode='convert', shape=A.shape_desc([ku, kv], [pu, pv], False, 3, 'coded')))
                 cases.append(dict(mode='scale_weights', shape=A.shape_desc([ku, kv], [pu, pv], True, 3, 'coded', 'coded')))
+                for wk in ('le1', 'spike'):
+                    cases.append(dict(mode='convert_rational', shape=A.shape_desc([ku, kv], [pu, pv], True, 3, 'coded', wk)))
     for pu, pv, pw in itertools.product([1, 2], repeat=3):
         ku, kv, kw = A.rep_kvs(pu, 1)[1], A.rep_kvs(pv, 1)[0], A.rep_kvs(pw, 1)[2]
         if pu + pv + pw > (4 if q else 6):
             continue
         cases.append(dict(mode='convert', shape=A.shape_desc([ku, kv, kw], [pu, pv, pw], False, 3, 'coded')))
         cases.append(dict(mode='scale_weights', shape=A.shape_desc([ku, kv, kw], [pu, pv, pw], True, 3, 'coded', 'coded')))
+        cases.append(dict(mode='convert_rational', shape=A.shape_desc([ku, kv, kw], [pu, pv, pw], True, 3, 'coded', 'le1')))
     return cases
 
 
@@ -215,6 +220,8 @@ def run_case(case, ctx):
         _convert(case, ctx)
     elif m == 'scale_weights':
         _scale_weights(case, ctx)
+    elif m == 'convert_rational':
+        _convert_rational(case, ctx)
 
 
 # ----------------------------------------------------------------------------------------
@@ -329,6 +336,25 @@ def _convert(case, ctx):
         ctx.close('C09.convert.to_nurbs.library_eval', nur.evaluate_single(arg), e, 1e-9, scale, dict(case, params=list(prm)), feats)
         ctx.close('C09.convert.to_bspline.library_eval', back.evaluate_single(arg), e, 1e-9, scale, dict(case, params=list(prm)), feats)
     ctx.check('C09.convert.input_unchanged', S.snapshot(obj) == S.snapshot(S.build(desc, ctx.seed)), case, feats)
+
+
+def _convert_rational(case, ctx):
+    """nurbs_to_bspline on a genuinely rational shape: whatever it returns must evaluate identically"""
+    from geomdl import convert
+    desc = case['shape']
+    obj = S.build(desc, ctx.seed)
+    feats = dict(pdim=desc['pdim'], degrees=desc['degrees'], weights=desc['weights'])
+    ctx.state(desc, nontrivial=True)
+    model = R.def_from_obj(obj)
+    scale = S.max_abs(model)
+    res = convert.nurbs_to_bspline(obj)
+    m2 = R.def_from_obj(res)
+    for prm in _params(desc, desc['kvs']):
+        fp = [F(x) for x in prm]
+        e = R.eval_point(model, fp)
+        ctx.close('C09.convert.rational_input.same_points', R.eval_point(m2, fp), e, 1e-12, scale, dict(case, params=list(prm)), feats)
+        arg = prm[0] if desc['pdim'] == 1 else list(prm)
+        ctx.close('C09.convert.rational_input.library_eval', res.evaluate_single(arg), e, 1e-9, scale, dict(case, params=list(prm)), feats)
 
 
 def _scale_weights(case, ctx):
